@@ -3,7 +3,7 @@
    the functions the generated cases evaluate).  Reference interpretation of the documented rules:
    M_FramesRef.v (Unw / RefFlat / Ref, big-step, no fuel/deques/origins/ticks).
    Examples showing that the hypotheses are met by non-trivial inputs: P_Frames_Ref.v, ex_*. *)
-Require Import Base M_Frames M_FramesRef P_Frames_Ref.
+Require Import Base M_Frames M_FramesRef P_Frames_Ref P_Frames_Fuel.
 From SS.gen Require Import SrcFacts.
 
 (* the constant of the progress guard, regenerated from the source *)
@@ -155,3 +155,28 @@ Theorem C10_guard_any_fuel : forall c (o : nat -> nat) fuel t,
   = Ok (Stack [] (LOne (QObj (o (uguard c)))) [ELoop (QObj (o (uguard c)))]).
 Proof. exact guard_run. Qed.
 Print Assumptions C10_guard_any_fuel.
+
+(* ---- fuel sufficiency on rank-ordered tables: the side condition of C10_model_eq_ref is
+   discharged.  [ranked n c root] (boolean, checked on the generated tables inside Coq): every hook
+   result of an object/frame of rank < n names only items of strictly greater rank < n, next_inner
+   only as last element; fuel_bound n c root = 1 + table-derived weight of the root. ---- *)
+Theorem C10_fuel_sufficient : forall n c root,
+  ranked n c root = true -> plain c -> forall fuel t,
+  fuel_bound n c root <= fuel -> fst (run fuel false c (root_q c root) [] [] [] t) <> OutOfFuel.
+Proof. exact run_total. Qed.
+Print Assumptions C10_fuel_sufficient.
+
+Theorem C10_ranked_total : forall c n root,
+  plain c -> ranked n c root = true ->
+  exists bound, forall fuel, bound <= fuel ->
+    exists s, fst (run fuel false c (root_q c root) [] [] [] 0) = Ok s /\ Ref c [(s_of root, 0)] (view s).
+Proof. exact ranked_total. Qed.
+Print Assumptions C10_ranked_total.
+
+(* extract (default fuel): unconditional model = reference whenever the bound fits, which the
+   cases files check for every table the generator claims to be ranked (rank_claim_ok) *)
+Theorem C10_model_eq_ref_total : forall c n root,
+  plain c -> ranked n c root = true -> fuel_bound n c root <= default_fuel ->
+  exists s, extract c root = Ok s /\ Ref c [(s_of root, 0)] (view s).
+Proof. exact model_eq_ref_total. Qed.
+Print Assumptions C10_model_eq_ref_total.
